@@ -104,6 +104,52 @@ pub fn digest(tz: &jiff::tz::TimeZone) -> u64 {
     h.0
 }
 
+/// Internal consistency of one handle, independent of any recording: the
+/// classification `to_ambiguous_timestamp(dt)` gives for a civil datetime
+/// must agree with what `to_offset` says about the instants that could map
+/// to it. With `valid(o)` meaning "the instant `dt - o` has offset `o`", and
+/// the candidate offsets taken one day before and after: exactly one valid
+/// offset = unambiguous with that offset, two = fold, none = gap.
+pub fn ambiguity_consistent(tz: &jiff::tz::TimeZone) -> Result<usize, String> {
+    use jiff::tz::{AmbiguousOffset, Offset};
+    use jiff::Timestamp;
+    let mut dt = jiff::civil::DateTime::constant(2024, 1, 1, 0, 15, 0, 0);
+    let mut n = 0;
+    for _ in 0..(366 * 48) {
+        let as_utc = dt.to_zoned(jiff::tz::TimeZone::UTC).unwrap().timestamp().as_second();
+        let at = |s: i64| Timestamp::from_second(s).map(|ts| tz.to_offset(ts));
+        let (Ok(o1), Ok(o2)) = (at(as_utc - 86_400), at(as_utc + 86_400)) else {
+            break;
+        };
+        let valid = |o: Offset| at(as_utc - o.seconds() as i64).map_or(false, |got| got == o);
+        let mut v: Vec<Offset> = vec![];
+        for o in [o1, o2] {
+            if valid(o) && !v.contains(&o) {
+                v.push(o);
+            }
+        }
+        let got = tz.to_ambiguous_timestamp(dt).offset();
+        let ok = match (v.len(), &got) {
+            (1, AmbiguousOffset::Unambiguous { offset }) => *offset == v[0],
+            (2, AmbiguousOffset::Fold { before, after }) => {
+                v.contains(before) && v.contains(after) && before != after
+            }
+            (0, AmbiguousOffset::Gap { .. }) => true,
+            _ => false,
+        };
+        if !ok {
+            return Err(format!(
+                "to_ambiguous_timestamp({dt}) says {got:?}, but to_offset makes {} of the candidate offsets {:?} valid for that civil time",
+                v.len(),
+                [o1, o2]
+            ));
+        }
+        n += 1;
+        dt = dt.checked_add(jiff::ToSpan::minutes(30)).unwrap();
+    }
+    Ok(n)
+}
+
 /// Compares the behaviour digest of a fresh handle of every pooled zone
 /// with the recorded one, and static zones with their heap twins.
 pub fn check_digests() -> Result<usize, String> {
@@ -113,12 +159,15 @@ pub fn check_digests() -> Result<usize, String> {
     let mut n = 0;
     for spec in golden_specs() {
         let tz = interp::make_tz(&spec);
+        if let Err(e) = ambiguity_consistent(&tz) {
+            return Err(format!("[answer_consistency] a fresh {spec:?} handle is inconsistent with itself: {e}"));
+        }
         let d = format!("{:016x}", digest(&tz));
         if let Some(want) = rec[key(&spec)].as_str() {
             n += 1;
             if want != d {
                 return Err(format!(
-                    "the behaviour of a fresh {spec:?} handle over the probe grid (offsets, abbreviations, gap/fold classification, transitions) differs from the recorded behaviour of the pinned tree (digest {d}, recorded {want})"
+                    "[answer_recorded] the behaviour of a fresh {spec:?} handle over the probe grid (offsets, abbreviations, gap/fold classification, transitions) differs from the recorded behaviour of the pinned tree (digest {d}, recorded {want})"
                 ));
             }
         }
@@ -127,7 +176,7 @@ pub fn check_digests() -> Result<usize, String> {
         let (s, hp) = (interp::make_tz(&Spec::Static(i)), interp::make_tz(&Spec::TzifBundled(i)));
         if digest(&s) != digest(&hp) {
             return Err(format!(
-                "static zone {} and the heap zone built from the same bytes behave differently over the probe grid",
+                "[static_vs_heap] static zone {} and the heap zone built from the same bytes behave differently over the probe grid",
                 interp::STATIC_NAMES[i as usize]
             ));
         }
